@@ -146,6 +146,7 @@ bool Solver::satisfy() {
         }
     }
     bs->cleanup();
+    delete vList;
     bool activeConstraints=false;
     for(unsigned i=0;i<m;i++) {
         if(cs[i]->active) activeConstraints=true;
@@ -158,7 +159,6 @@ bool Solver::satisfy() {
             throw UnsatisfiedConstraint(*cs[i]);
         }
     }
-    delete vList;
     copyResult();
     return activeConstraints;
 }
